@@ -1054,7 +1054,12 @@ impl Snapshot {
 }
 
 /// Manifest: tracks valid snapshots and WAL segments
+///
+/// The file is plain JSON without a checksum, so the parser is strict about its keys: a damaged
+/// key (e.g. one flipped bit in `latest_snapshot`) must fail the load instead of silently
+/// turning an optional field into `None` and dropping the snapshot from recovery.
 #[derive(Debug, Clone, Serialize, Deserialize)]
+#[serde(deny_unknown_fields)]
 pub struct Manifest {
     pub version: u32,
     pub latest_snapshot: Option<String>,
